@@ -121,9 +121,19 @@ class Optional(Box):
         from .closure import Closure, Gather, Join
 
         exp = self.exp.optimized()
-        if isinstance(
-            exp, Optional | Closure | Join | Gather
-        ) and 'Positive' not in typename(exp):
+
+        def commits(m: Model) -> bool:
+            # a cut (joins and gathers cut after each separator) can make m fail
+            if isinstance(m, Join | Gather) or typename(m) == 'Cut':
+                return True
+            return any(commits(c) for c in m.children() if isinstance(c, Model))
+
+        if (
+            isinstance(exp, Optional | Closure)
+            and 'Positive' not in typename(exp)
+            and not commits(exp)
+        ):
+            # NOTE: only an expression that cannot fail makes the optional redundant
             return exp
         new = copy(self)
         new.exp = exp
